@@ -55,6 +55,42 @@ Theorem gen_linear_to_srgb_is_model : forall powf f, linear_to_srgb__f (IF32 pow
 Proof. exact gen_linear_to_srgb. Qed.
 Print Assumptions gen_linear_to_srgb_is_model.
 
+(* ---- the double overloads and instantiations of the same templates (binary64 rounding rnd64) ---- *)
+Theorem gen_rcp_double_is_model : forall powf x, rcp__d (IF32 powf) x = rcp_g rnd64 x.
+Proof. exact gen_rcp_d. Qed.
+Print Assumptions gen_rcp_double_is_model.
+
+Theorem gen_rsqrt_double_is_model : forall powf x, rsqrt__d (IF32 powf) x = rsqrt_g rnd64 x.
+Proof. exact gen_rsqrt_d. Qed.
+Print Assumptions gen_rsqrt_double_is_model.
+
+(* rcp_safe_t<T> is ONE text at both precisions: T's own min() as threshold and replacement, sign test x >= 0 *)
+Theorem gen_rcp_safe_double_is_model : forall powf x, rcp_safe__d (IF32 powf) x = rcp_safe_g rnd64 DBL_MIN x.
+Proof. exact gen_rcp_safe_d. Qed.
+Print Assumptions gen_rcp_safe_double_is_model.
+
+Theorem gen_rcp_safe_float_is_generic : forall powf x, rcp_safe__f (IF32 powf) x = rcp_safe_g rnd FLT_MIN x.
+Proof. exact gen_rcp_safe_f_generic. Qed.
+Print Assumptions gen_rcp_safe_float_is_generic.
+
+Theorem gen_clamp_double_is_model : forall powf x lo hi, clamp__d_d_d (IF32 powf) x lo hi = clampR x lo hi.
+Proof. exact gen_clamp_d. Qed.
+Print Assumptions gen_clamp_double_is_model.
+
+Theorem gen_madd_double_is_model : forall powf a b c, madd__d_d_d (IF32 powf) a b c = madd_g rnd64 a b c.
+Proof. exact gen_madd_d. Qed.
+Print Assumptions gen_madd_double_is_model.
+
+Theorem gen_deg2rad_double_is_model : forall powf x,
+  deg2rad__d (IF32 powf) x = rnd64 (x * rnd64 (IZR 3490658503988659 / IZR 200000000000000000)).
+Proof. exact gen_deg2rad_d. Qed.
+Print Assumptions gen_deg2rad_double_is_model.
+
+Theorem gen_lerp_double_is_model : forall powf f a b,
+  lerp__f_d_d (IF32 powf) f a b = rnd64 (rnd64 (rnd64 (rnd (1 - f)) * a) + rnd64 (rnd64 f * b)).
+Proof. exact gen_lerp_d. Qed.
+Print Assumptions gen_lerp_double_is_model.
+
 (* ---- 8-bit conversion and packing (mixed float / uint32_t) ---- *)
 Theorem gen_cvt_uint32_is_model : forall powf f, cvt_uint32__f (IF32 powf) f = IZR (cvt f).
 Proof. exact gen_cvt. Qed.
